@@ -596,3 +596,94 @@ class PoolBoundsStream(Stream):
                 if p in adv:
                     out.append("probe_on_advertised_bound")
         return out
+
+
+# ----------------------------------------------------------------------------- float summation stream
+class FloatSumStream(Stream):
+    """Float-only: the theorems are over Q, where the order and the algorithm of a summation do not
+    matter.  In binary64 they do: PowerBoundsCalculator used to accumulate the per-set bounds with
+    a naive `+=` while BatteryManager._get_bounds uses the builtin (compensated) sum(), so the
+    advertised inclusion bound could be one ulp outside the enforced one (finding
+    C17-float-summation-ulp, fixed).  This stream runs both real code paths on binary64 with
+    non-dyadic bounds and >= 3 battery sets and demands bit-identical inclusion bounds and
+    acceptance of requests exactly on the advertised bounds.  No model twin."""
+    name = "floatsum"
+    coq_header = ""
+    n_quick = 400
+    n_thorough = 6000
+
+    def gen(self, rng, tier):
+        n = self.n_quick if tier == "quick" else self.n_thorough
+        for _ in range(n):
+            bats, edges, data, nxt = [], [], {}, 1
+            for _g in range(rng.randint(3, 9)):
+                nb, ni = rng.choice([1, 1, 2, 3]), rng.choice([1, 1, 2, 3])
+                bs = list(range(nxt, nxt + nb)); nxt += nb
+                is_ = list(range(nxt, nxt + ni)); nxt += ni
+                bats += bs
+                edges += [[i, b] for i in is_ for b in bs]
+                for c in bs + is_:
+                    eu = F(rng.randint(0, 2000), 10)
+                    iu = eu + F(rng.randint(0, 90000), rng.choice([10, 100, 7]))
+                    el = -F(rng.randint(0, 2000), 10)
+                    il = el - F(rng.randint(0, 90000), rng.choice([10, 100, 3]))
+                    data[str(c)] = [enc(x) for x in (il, el, eu, iu)]
+            rng.shuffle(bats)
+            working = sorted(bats) if rng.random() < 0.7 else sorted(b for b in bats if rng.random() < 0.8)
+            yield {"bats": bats, "edges": edges, "extra_pred": [], "data": data, "absent": [], "working": working, "deltas": []}
+
+    def run_impl(self, case):
+        try:
+            fl, ask = run_once(case, float)
+        except Exception as exc:
+            return {"error": f"{type(exc).__name__}: {exc}"}
+        if ask is None or fl["adv"] is None:
+            return {"adv": None}
+        obs = {"adv": [float(v).hex() for v in fl["adv"]], "enf": [float(v).hex() for v in fl["enf"]],
+               "adv_dec": [repr(float(v)) for v in fl["adv"]], "enf_dec": [repr(float(v)) for v in fl["enf"]]}
+        obs["on_lower"] = ask(F(float(fl["adv"][0])))
+        obs["on_upper"] = ask(F(float(fl["adv"][3])))
+        return obs
+
+    def to_coq(self, case, obs):
+        return None
+
+    def oracle(self, case, obs):
+        if "error" in obs:
+            return [{"what": f"crash: calculator / manager raised {obs['error']}", "finding": None}]
+        if obs.get("adv") is None:
+            return []
+        out = []
+        a, e = [float.fromhex(v) for v in obs["adv"]], [float.fromhex(v) for v in obs["enf"]]
+        if (a[0], a[3]) != (e[0], e[3]):
+            out.append({"what": f"floatsum: in binary64 the advertised inclusion bounds ({a[0]!r}, {a[3]!r}) differ from the "
+                                f"enforced ({e[0]!r}, {e[3]!r})", "finding": None})
+        for side, pr, v in (("lower", obs["on_lower"], a[0]), ("upper", obs["on_upper"], a[3])):
+            il, el, eu, iu = a
+            if v != 0 and il <= v <= iu and (v <= el or v >= eu):
+                for mode in ("adj", "noadj"):
+                    if pr[mode] != "ok":
+                        out.append({"what": f"floatreject: a request exactly on the advertised {side} inclusion bound {v!r} "
+                                            f"(binary64) is answered {pr[mode]} with adjust_power={mode == 'adj'}; enforced "
+                                            f"inclusion bounds ({e[0]!r}, {e[3]!r})", "finding": None})
+        return out
+
+    def key(self, case, obs):
+        if "error" in obs or obs.get("adv") is None:
+            return None
+        return json.dumps([case["edges"], case["data"], case["working"]], sort_keys=True)
+
+    def labels(self, case, obs):
+        if "error" in obs:
+            return ["impl_error"]
+        if obs.get("adv") is None:
+            return ["no_bounds"]
+        n = len({frozenset(b for i2, b in case["edges"] if i2 in {i for i, bb in case["edges"] if bb == b0})
+                 for b0 in case["working"]})
+        return [f"battery_sets={n}", "non_dyadic"]
+
+    def shrink(self, case):
+        for b in case["bats"]:
+            if len(case["bats"]) > 1:
+                yield {**case, "bats": [x for x in case["bats"] if x != b], "edges": [e for e in case["edges"] if e[1] != b],
+                       "working": [x for x in case["working"] if x != b]}
